@@ -2,6 +2,7 @@ import io
 import logging
 import multiprocessing
 import os
+import pickle
 import sys
 import traceback
 from abc import ABC, abstractmethod
@@ -33,6 +34,19 @@ if TYPE_CHECKING:
     mpctx_Process = multiprocessing.Process  # pragma: no cover
 else:
     mpctx_Process = mpctx.Process
+
+
+def _sendable(e: Exception) -> Exception:
+    """
+    Return e if it survives being sent through a pipe, otherwise a RuntimeError
+    with the same message. (Some exceptions, such as igzip_lib.IsalError, cannot
+    be pickled. The receiver would wait forever for the object announced by -2.)
+    """
+    try:
+        pickle.loads(pickle.dumps(e))
+    except Exception:
+        return RuntimeError(f"{type(e).__name__}: {e}")
+    return e
 
 
 class ReaderProcess(mpctx_Process):
@@ -98,7 +112,7 @@ class ReaderProcess(mpctx_Process):
                     file_format = detect_file_format(files[0])
                 except Exception as e:
                     self._file_format_connection.send(-2)
-                    self._file_format_connection.send((e, traceback.format_exc()))
+                    self._file_format_connection.send((_sendable(e), traceback.format_exc()))
                     raise
                 self._file_format_connection.send(file_format)
                 for index, chunks in enumerate(self._read_chunks(*files)):
@@ -111,7 +125,7 @@ class ReaderProcess(mpctx_Process):
             # are caught within the workers.
             for connection in self.connections:
                 connection.send(-2)
-                connection.send((e, traceback.format_exc()))
+                connection.send((_sendable(e), traceback.format_exc()))
 
     def _read_chunks(self, *files) -> Iterator[Tuple[memoryview, ...]]:
         if len(files) == 1:
@@ -211,7 +225,7 @@ class WorkerProcess(mpctx_Process):
             self._write_pipe.send(stats)
         except Exception as e:
             self._write_pipe.send(-2)
-            self._write_pipe.send((e, traceback.format_exc()))
+            self._write_pipe.send((_sendable(e), traceback.format_exc()))
 
     def _send_outfiles(self, chunk_index: int, n_reads: int):
         self._write_pipe.send(chunk_index)
